@@ -24,6 +24,17 @@ import (
 type Op struct {
 	K string `json:"k"` // enq, deq, all, req (requeue last taken), depth, yield
 	D string `json:"d,omitempty"`
+	// Pad (enq): the chunk is D followed by this many more bytes (chunks as large as a transport
+	// read and larger)
+	Pad int `json:"pad,omitempty"`
+}
+
+func (o Op) data() string {
+	if o.Pad > 0 {
+		return o.D + strings.Repeat("z", o.Pad)
+	}
+
+	return o.D
 }
 
 // SeqCase is a sequential history.
@@ -45,6 +56,14 @@ func genSeq(t *rapid.T) SeqCase {
 
 		if k == "enq" {
 			op.D = genChunk(t)
+
+			switch rapid.IntRange(0, 9).Draw(t, "chunkKind") {
+			case 0:
+				// any byte value is data, the NUL byte included
+				op.D = rapid.SampledFrom([]string{"\x00", "\x00\x00a\x00", "a\x07b", "\x7f", "é✓", "\x00\x00\x00\x00"}).Draw(t, "binChunk")
+			case 1:
+				op.Pad = rapid.SampledFrom([]int{4095, 16383, 16384, 16385, 65534, 65535, 65536, 200000}).Draw(t, "pad")
+			}
 		}
 
 		if k == "burst" {
@@ -81,8 +100,8 @@ func runSeq(c SeqCase) ev.Verdict {
 	for i, op := range c.Ops {
 		switch op.K {
 		case "enq":
-			q.Enqueue([]byte(op.D))
-			model = append(model, op.D)
+			q.Enqueue([]byte(op.data()))
+			model = append(model, op.data())
 		case "deq":
 			done := make(chan []byte, 1)
 			go func() { done <- q.Dequeue() }()
